@@ -64,7 +64,7 @@ func (c *Ctx) Tag(tag string) { c.Tags[tag]++ }
 func (c *Ctx) next() int { c.n++; return c.n }
 
 // (the last four end in id / ids, which goag's identifier casing treats specially)
-var stems = []string{"alpha", "bravo", "delta", "gamma", "kappa", "omega", "sigma", "theta", "lambda", "zeta", "grid", "bids", "android", "paid"}
+var stems = []string{"alpha", "bravo", "delta", "gamma", "kappa", "omega", "sigma", "theta", "lambda", "zeta", "grid", "bids", "android", "paid", "uuid", "deviceuuid", "accountguid"}
 
 // SafeName draws a name that is >=5 characters, carries a digit, is unique within
 // the document (and stays unique after case-folding and removal of
@@ -72,13 +72,16 @@ var stems = []string{"alpha", "bravo", "delta", "gamma", "kappa", "omega", "sigm
 func (c *Ctx) SafeName(prefix string, label string) string {
 	stem := rapid.SampledFrom(stems).Draw(c.T, label+"_stem")
 	n := c.next()
-	switch rapid.IntRange(0, 3).Draw(c.T, label+"_shape") {
+	switch rapid.IntRange(0, 4).Draw(c.T, label+"_shape") {
 	case 0:
 		return fmt.Sprintf("%s%s%d", prefix, stem, n)
 	case 1:
 		return fmt.Sprintf("%s_%s%d", prefix, stem, n)
 	case 2:
 		return fmt.Sprintf("%s%s%dx", prefix, strings.Title(stem), n)
+	case 3:
+		// a last part that is exactly id / ids / Ids (X-Shop-Ids, shop_id)
+		return fmt.Sprintf("%s-%s%d-%s", prefix, stem, n, rapid.SampledFrom([]string{"ids", "Ids", "id", "Id", "uuid"}).Draw(c.T, label+"_idpart"))
 	default:
 		return fmt.Sprintf("%s-%s%d", prefix, stem, n)
 	}
@@ -453,9 +456,14 @@ func (c *Ctx) objectSchema(depth int, withProps bool) *Schema {
 	for i := 0; i < n; i++ {
 		name := c.SafeName("p", "prop")
 		// (a property may be named like a specification extension: it is a property all the same)
-		if rapid.IntRange(0, 9).Draw(t, "prop_named_like_extension") == 0 {
+		switch rapid.IntRange(0, 9).Draw(t, "prop_name_variant") {
+		case 0:
 			name = "x-" + name
 			c.Tag("prop:named-like-extension")
+		case 1, 2:
+			// PascalCase property names (Radius, ID): common where the API mirrors Go / C# types
+			name = strings.ToUpper(name[:1]) + name[1:]
+			c.Tag("prop:pascal-case")
 		}
 		s.Properties[name] = c.Schema(depth-1, "property")
 		if rapid.Bool().Draw(t, "required") {
@@ -888,6 +896,10 @@ func BaseForms() []BaseForm {
 		{Name: "server-path-percent-encoded", Servers: []*Server{{URL: "https://h.example/caf%C3%A9/v1"}}, Expected: "/caf\u00e9/v1"},
 		{Name: "server-path-non-ascii", Servers: []*Server{{URL: "https://h.example/caf\u00e9"}}, Expected: "/caf\u00e9"},
 		{Name: "server-path-with-space", Servers: []*Server{{URL: "https://h.example/my%20api/v2"}}, Expected: "/my api/v2"},
+		{Name: "relative-server-first", Servers: []*Server{{URL: "/"}, {URL: "https://api.example.com/v1"}}, Expected: ""},
+		{Name: "relative-server-with-path-first", Servers: []*Server{{URL: "/internal"}, {URL: "https://api.example.com/v1"}}, Expected: "/internal"},
+		{Name: "server-variable-glued-to-host", Servers: []*Server{{URL: "https://api.example.com{basePath}", Variables: map[string]*ServerVariable{"basePath": {Default: "/v2"}}}}, Expected: "/v2"},
+		{Name: "server-variable-default-with-slashes", Servers: []*Server{{URL: "https://api.example.com/{basePath}", Variables: map[string]*ServerVariable{"basePath": {Default: "api/v3/"}}}}, Expected: "/api/v3"},
 		{Name: "server-variable-used-twice", Servers: []*Server{{URL: "https://{region}.api.example.com/{region}/{version}", Variables: map[string]*ServerVariable{"region": {Default: "eu"}, "version": {Default: "v2"}}}}, Expected: "/eu/v2"},
 	}
 }
